@@ -235,6 +235,95 @@ def reachable_by_some_caller(repo, view, n):
       need, [{k: v for k, v in b.items() if k in need} for _, _, b in sites])
 
 
+def must_raise(chk, rid, fq, typ, core, label):
+  """Under the scenario 'the core condition of the diagnostic holds' every
+  path through the function (loop bodies taken once) ends in a raise of the
+  diagnostic type; any other condition is left unknown, so an added escape
+  (`if <something>: continue`) shows up as a path that does not raise.
+
+  core: list of predicates on condition expressions: (set of identifiers the
+  condition must mention, truth value to assume)."""
+  from sa.absint import Const, Interp, State, Sym
+  repo = chk.repo
+  fi = repo.func(fq)
+  facts = {}
+  matched = 0
+  conds = []
+  for x in walk_local(fi.node):
+    if isinstance(x, (ast.If, ast.While)):
+      conds.append(x.test)
+  for need, val in core:
+    hit = False
+    for t in conds:
+      for e in _conjuncts(t):
+        inner = e.operand if isinstance(e, ast.UnaryOp) and isinstance(e.op, ast.Not) else e
+        if set(need) <= idents(inner):
+          # store the truth of the inner expression
+          tv = (not val) if inner is not e else val
+          facts[norm(inner)] = tv
+          if isinstance(inner, ast.Name):
+            # a flag variable: the same truth for the expression it was computed from
+            for a in walk_local(fi.node):
+              if (isinstance(a, ast.Assign) and len(a.targets) == 1
+                  and isinstance(a.targets[0], ast.Name) and a.targets[0].id == inner.id):
+                facts[norm(a.value)] = tv
+          hit = True
+    if hit:
+      matched += 1
+  if matched < len(core):
+    # scenario not recognisable: the catalogue rule judges this site
+    chk.info('C19-R1 must-raise scenario for %s not recognised (conditions renamed?); '
+             'only the catalogue clause judged it' % fq)
+    return None
+
+  def call(node, st, interp):
+    for t in repo.resolve(fi, node):
+      if t in RAISING_HELPERS:
+        st.effects.append(('raised', RAISING_HELPERS[t]))
+    return NotImplemented
+  it = Interp(fi.node, dict(call=call, loop=lambda n, s: 'body'), max_paths=4000)
+  try:
+    outs = it.run(State(facts=facts))
+  except AnalysisError:
+    return None
+  bad = []
+  for o in outs:
+    raised = o.kind == 'raise' and raised_type(repo, fi, o.node) == typ
+    raised = raised or any(e[0] == 'raised' and e[1] == typ for e in o.state.effects)
+    if o.kind == 'assert':
+      continue
+    if not raised:
+      bad.append('; '.join(o.state.trace) or 'fall through')
+  chk.ob(rid, not bad, None, 'whenever %s, %s raises %s' % (label, fq.split('.')[-1], typ),
+         'although %s, a path avoids the diagnostic (%s): some programs of this '
+         'kind are accepted silently' % (label, bad[0] if bad else ''), fi=fi)
+  return not bad
+
+
+def _conjuncts(t):
+  if isinstance(t, ast.BoolOp) and isinstance(t.op, ast.And):
+    out = []
+    for v in t.values:
+      out += _conjuncts(v)
+    return out
+  return [t]
+
+
+MUST_RAISE = [
+    ('universe.Annotations.CheckAnnotatedObjects', 'RuleCompileException',
+     [(['annotation_name'], True), (['annotated_predicate', 'all_predicates'], True)],
+     'an annotated predicate does not exist'),
+    ('functors.Functors.CallFunctor', 'FunctorError', [(['bad_args'], True)],
+     'a functor is applied to arguments it does not have'),
+    ('parse.MultiBodyAggregation.SplitAggregation', 'ParsingException',
+     [(['distinct_denoted', 'rule'], True)], 'one body of an aggregating predicate lacks distinct'),
+    ('parse.RemoveComments', 'ParsingException', [(['status', 'Unmatched'], True)],
+     'a closing bracket matches nothing'),
+    ('parse.SplitRaw', 'ParsingException', [(['status', 'OK'], True)],
+     'the scanner reports an unmatched bracket'),
+]
+
+
 def must_call(chk, rid, caller, callee, why, after=None, arg_check=None):
   """Every normal path through `caller` calls `callee`."""
   v = FnView(chk.repo, caller)
@@ -276,6 +365,8 @@ def run(chk):
            'no `raise %s` guarded by a test over %s is left in %s: this class '
            'of invalid program is no longer diagnosed here' % (typ, mentions, fq),
            fi=v.fi)
+  for fq, typ, core, label in MUST_RAISE:
+    must_raise(chk, 'C19-R1', fq, typ, core, label)
   # Traverse reports unmatched closers
   tv = FnView(repo, 'parse.Traverse')
   y = [x for x in walk_local(tv.fi.node) if isinstance(x, ast.Yield) and
